@@ -25,6 +25,20 @@ Definition rule_is_body (r : rule) : bool := match r with RMap ((0, true, _) :: 
 Definition relax (r : rule) : rule :=
   if rule_is_mint r then RMapOf 0 policy_id (RMapOf 1 asset_name nonZeroInt) else if rule_is_body r then transaction_body_relaxed else r.
 
+(* C03-builder-echoes-degenerate-given-values — the transaction fails the Conway rule, passes it once zero quantities and
+   empty policy bundles are admitted in VALUES (nothing else relaxed), and some value GIVEN to the builder (an input's or
+   collateral input's amount, a requested output's amount: CBOR array [given]) already carried such an entry. *)
+Definition value_relaxed : rule := RChoice [coin; RArr [coin; RMapOf 0 policy_id (RMapOf 0 asset_name coin)]].
+Definition echo_env : env := (N_value, value_relaxed) :: conway_env.
+Definition given_degenerate (given : bytes) : bool :=
+  cddl_ok_bytes conway_env (RArrOf 0 value_relaxed) given && negb (cddl_ok_bytes conway_env (RArrOf 0 (RRef N_value)) given).
+(* 0 = conforms; 1 = mint quantity outside int64; 3 = echoed degenerate given value; 2 = any other violation *)
+Definition judge_class_tx (r : rule) (bs given : bytes) : N :=
+  if cddl_ok_bytes conway_env r bs then 0
+  else if cddl_ok_bytes relaxed_env (relax r) bs then 1
+  else if cddl_ok_bytes echo_env r bs && given_degenerate given then 3
+  else 2.
+
 (* 0 = conforms; 1 = known class mint-quantity-outside-int64; 2 = any other violation *)
 Definition judge_class (r : rule) (bs : bytes) : N :=
   if cddl_ok_bytes conway_env r bs then 0
